@@ -283,13 +283,13 @@ fn c14_quantile_skipnan_opt_max_l4() {
 
 /// 3-D (and IxDyn): the index forms and the indexed fold report LOGICAL indexes, also through
 /// cyclically permuted axes (stride order a 3-cycle) and when the extremum lies outside the first
-/// slab along axis 0.
-fn skipnan_3d(perm: u8) {
+/// slab along axis 0. `what`: 0 = argmin/argmax_skipnan, 1 = indexed_fold_skipnan, 2 = IxDyn argmin.
+fn skipnan_3d(perm: u8, what: u8) {
     let vals: [Option<i8>; 8] = kani::any(); // logical (i, j, k) of a 2x2x2 array = vals[4 i + 2 j + k]
     // store so that the requested axis permutation of the parent gives back the logical array
     let parent = match perm {
         0 => Array3::from_shape_fn((2, 2, 2), |(i, j, k)| vals[4 * i + 2 * j + k]),
-        // parent axes (a, b, c); view = parent.permuted_axes([1, 2, 0]) has logical (i, j, k) = parent[k, i, j]
+        // view = parent.permuted_axes([1, 2, 0]) has logical (i, j, k) = parent[k, i, j]
         1 => Array3::from_shape_fn((2, 2, 2), |(a, b, c)| vals[4 * b + 2 * c + a]),
         // view = parent.permuted_axes([2, 0, 1]) has logical (i, j, k) = parent[j, k, i]
         _ => Array3::from_shape_fn((2, 2, 2), |(a, b, c)| vals[4 * c + 2 * a + b]),
@@ -317,40 +317,51 @@ fn skipnan_3d(perm: u8) {
         }
         t += 1;
     }
-    match (v.argmin_skipnan(), v.argmax_skipnan()) {
-        (Ok((i, j, k)), Ok((a, b, c))) => {
-            assert!(cnt > 0);
-            assert!(i < 2 && j < 2 && k < 2 && a < 2 && b < 2 && c < 2, "indexes inside the logical shape");
-            assert!(vals[4 * i + 2 * j + k] == Some(omin) && vals[4 * a + 2 * b + c] == Some(omax), "index forms designate a position of the logical array holding the extremum");
+    if what == 0 {
+        match (v.argmin_skipnan(), v.argmax_skipnan()) {
+            (Ok((i, j, k)), Ok((a, b, c))) => {
+                assert!(cnt > 0);
+                assert!(i < 2 && j < 2 && k < 2 && a < 2 && b < 2 && c < 2, "indexes inside the logical shape");
+                assert!(vals[4 * i + 2 * j + k] == Some(omin) && vals[4 * a + 2 * b + c] == Some(omax), "index forms designate a position of the logical array holding the extremum");
+            }
+            (Err(_), Err(_)) => assert!(cnt == 0),
+            _ => assert!(false),
         }
-        (Err(_), Err(_)) => assert!(cnt == 0),
-        _ => assert!(false),
+    } else if what == 1 {
+        let isum = v.indexed_fold_skipnan(0u32, |acc, ((i, j, k), x)| mix(acc, (**x as u8 as u32) ^ (((4 * i + 2 * j + k) as u32 + 1) << 12)));
+        assert!(isum == oisum, "indexed_fold_skipnan pairs each remaining element with its logical index");
+    } else {
+        let d = v.into_dyn();
+        match d.argmin_skipnan() {
+            Ok(ix) => assert!(cnt > 0 && ix.ndim() == 3 && ix[0] < 2 && ix[1] < 2 && ix[2] < 2 && vals[4 * ix[0] + 2 * ix[1] + ix[2]] == Some(omin), "IxDyn index form"),
+            Err(_) => assert!(cnt == 0),
+        }
     }
-    let isum = v.indexed_fold_skipnan(0u32, |acc, ((i, j, k), x)| mix(acc, (**x as u8 as u32) ^ (((4 * i + 2 * j + k) as u32 + 1) << 12)));
-    assert!(isum == oisum, "indexed_fold_skipnan pairs each remaining element with its logical index");
-    let d = v.into_dyn();
-    if let Ok(ix) = d.argmin_skipnan() {
-        assert!(ix.ndim() == 3 && vals[4 * ix[0] + 2 * ix[1] + ix[2]] == Some(omin), "IxDyn index form");
-    }
-    kani::cover!(cnt == 8 && vals[6] == Some(-128) && vals[3] == Some(127), "W: minimum at (1,1,0), maximum at (0,1,1)");
-    kani::cover!(cnt == 0, "W: all missing");
+    kani::cover!(vals[6] == Some(-128) && vals[3] == Some(127) && vals[0] == Some(0), "W: minimum at (1,1,0), maximum at (0,1,1)");
+    kani::cover!(vals[0].is_none() && vals[7].is_none() && vals[5] == Some(3), "W: some missing");
 }
 
-//@ prop=C14,C20:thorough tier=quick mem=8 timeout=3000 inst="argmin/argmax_skipnan, indexed_fold_skipnan on ArrayView3<Option<i8>> 2x2x2 seen through permuted_axes([1,2,0]), and its into_dyn()" bounds="all None placements and payloads; unwind 12"
+//@ prop=C14,C20:thorough tier=quick mem=6 timeout=3000 inst="argmin_skipnan / argmax_skipnan on ArrayView3<Option<i8>> 2x2x2 seen through permuted_axes([1,2,0])" bounds="all None placements and payloads; unwind 12"
 #[kani::proof]
 #[kani::unwind(12)]
-fn c14_skipnan_3d_cyclic() {
-    skipnan_3d(1);
+fn c14_skipnan_3d_cyclic_arg() {
+    skipnan_3d(1, 0);
 }
-//@ prop=C14,C20:thorough tier=thorough mem=8 timeout=5400 inst="argmin/argmax_skipnan, indexed_fold_skipnan on Array3<Option<i8>> 2x2x2 standard layout, and IxDyn" bounds="all None placements and payloads; unwind 12"
+//@ prop=C14,C20:thorough tier=quick mem=6 timeout=3000 inst="indexed_fold_skipnan on ArrayView3<Option<i8>> 2x2x2 seen through permuted_axes([1,2,0])" bounds="all None placements and payloads; unwind 12"
 #[kani::proof]
 #[kani::unwind(12)]
-fn c14_skipnan_3d_standard() {
-    skipnan_3d(0);
+fn c14_skipnan_3d_cyclic_fold() {
+    skipnan_3d(1, 1);
 }
-//@ prop=C14,C20:thorough tier=thorough mem=8 timeout=5400 inst="argmin/argmax_skipnan, indexed_fold_skipnan on ArrayView3<Option<i8>> 2x2x2 through permuted_axes([2,0,1])" bounds="all None placements and payloads; unwind 12"
+//@ prop=C14,C20:thorough tier=thorough mem=6 timeout=5400 inst="argmin_skipnan on ArrayD<Option<i8>> 2x2x2 (into_dyn of a permuted view [2,0,1])" bounds="all None placements and payloads; unwind 12"
 #[kani::proof]
 #[kani::unwind(12)]
-fn c14_skipnan_3d_cyclic2() {
-    skipnan_3d(2);
+fn c14_skipnan_3d_cyclic2_dyn() {
+    skipnan_3d(2, 2);
+}
+//@ prop=C14,C20:thorough tier=thorough mem=6 timeout=5400 inst="argmin/argmax_skipnan on Array3<Option<i8>> 2x2x2 standard layout" bounds="all None placements and payloads; unwind 12"
+#[kani::proof]
+#[kani::unwind(12)]
+fn c14_skipnan_3d_standard_arg() {
+    skipnan_3d(0, 0);
 }
